@@ -228,7 +228,10 @@ impl<'a> Iterator for Tokenizer<'a> {
                 self.skip_while(|c, esc| c != '"' || esc);
 
                 // skip closing "
-                self.bump()?;
+                if self.bump().is_none() {
+                    // the input ended inside the literal: that is an error, not the end of the program
+                    return Some(Illegal);
+                }
 
                 // this reads the string including escape characters
                 String(self.read_str(start + 1, self.offset() - 1))
